@@ -1,6 +1,7 @@
 """C02 -- threshold completeness: enough valid authorised signers always suffice (see harness/vsign.py)"""
+import sys
 from pysym.framework import Unit
-from harness import vsign
+from harness import vsign, vdeleg
 
 ID = 'C02'
 PROPS = ('C02',)
@@ -15,10 +16,27 @@ def units(tier):
         us.append(Unit('verify_signable:rich', vsign.factory('vr', PROPS, N=1, M=1, Loh=6, rich=True, junk=True, any_args=True,
                                                              thr_kinds=('int', 'bool', 'float', 'none', 'str'), modes=(True, False, 1, 0, None, 'x')),
                        expect=('accepts:raw', 'accepts:gpg'), max_witnesses=600))
+    us.append(Unit('verify_delegation', vdeleg.factory_vd('c2d', PROPS, **VD), expect=('accepts',), max_witnesses=200))
+    us.append(Unit('verify_root', vdeleg.factory_vr('c2r', PROPS, **VR), expect=('accepts',), max_witnesses=150))
     return us
 
 
+VD = dict(R=2, M=1, N=1, junk=True)
+VR = dict(R=2, M=1, N=1, ver_kinds=('int',), ver_kinds_U=('int',))
+
+
+def pre(res, tier):
+    vdeleg.prove_checker_lemmas(res, sys.modules[__name__], vdeleg.lemma_units('vd', 'c2d', **VD) + vdeleg.lemma_units('vr', 'c2r', **VR))
+
+
 def concrete(case):
+    sc = case.get('scenario')
+    if sc == 'lemma':
+        return {}
+    if sc == 'verify_delegation':
+        return vdeleg.run_vd(case)
+    if sc == 'verify_root':
+        return vdeleg.run_vr(case)
     return vsign.run_verify_signable(case)
 
 
@@ -28,6 +46,13 @@ def agrees(case, obs):
 
 
 def judge(case, obs):
+    sc = case.get('scenario')
+    if sc == 'lemma':
+        return None
+    if sc == 'verify_delegation':
+        return vdeleg.judge_vd(case, obs, PROPS)
+    if sc == 'verify_root':
+        return vdeleg.judge_vr(case, obs, PROPS)
     return vsign.judge_verify_signable(case, obs, PROPS)
 
 
